@@ -58,6 +58,18 @@ CLAIMED = {
             "All ids up to 2^31-1 and all high-water marks; acceptance, the least-free-id rule, "
             "exhaustion, and the error class (stream error / STREAM_CLOSED / PROTOCOL_ERROR) for "
             "unusable peer ids are compared with an RFC 7540 5.1.1 predicate.", "7/C09"),
+    'C27': ("symbolic one-step non-growth checks: non-opening frames on symbolic stream ids over "
+            "hash-free maps, SizeLimitDict with symbolic limit, the CONTINUATION backlog around "
+            "its limit, and the acknowledged MAX_HEADER_LIST_SIZE (symbolic) reaching the decoder",
+            "Induction replaces the 'hundreds of thousands of frames' quantifier: from an "
+            "arbitrary state one more frame never grows streams / closed-stream memory / header "
+            "buffer beyond its cap; every path set is exhausted.", "7/C27"),
+    'C16': ("symbolic one-step induction on (content-length N, bytes so far A) through the real "
+            "receive_data/receive_headers/_track_content_length code; END_STREAM placement and "
+            "no-content response kinds enumerated",
+            "N, A, DATA length, padding and END_STREAM are solver variables; the verdict "
+            "(accepted iff total == N, bodiless responses refused iff payload > 0) is compared on "
+            "every path.", "7/C16"),
 }
 
 NOT_YET = {}
